@@ -33,7 +33,7 @@ SRC = open(CORPUS).read()
 MODNAME = "C09_funcs"
 FUNCS = ("straight", "branch", "chain", "loop", "forloop", "calls", "attrs", "alias", "methods", "subs", "dicts",
          "unpack", "guard", "nested", "breaks", "globs", "augm", "boolop", "recur", "whileif", "tuples", "nonecheck",
-         "whilebreak", "condcall", "globwrite", "listalias", "chaincmp", "boom", "deepboom")
+         "whilebreak", "condcall", "globwrite", "listalias", "chaincmp", "boom", "deepboom", "cmplocals", "forlist", "retloop", "objarg", "strs", "deepcall")
 METRICS = (config.CoverageMetric.BRANCH, config.CoverageMetric.LINE, config.CoverageMetric.CHECKED)
 CRITERION_NAMES = ("RETURN_VALUE", "RETURN_CONST", "STORE_FAST", "STORE_GLOBAL", "STORE_ATTR", "STORE_SUBSCR",
                    "POP_JUMP_IF_FALSE", "POP_JUMP_IF_TRUE", "POP_JUMP_IF_NONE", "POP_JUMP_IF_NOT_NONE", "FOR_ITER")
